@@ -125,10 +125,30 @@ func propVector(t *rapid.T, f inst.Field) {
 		res.Sub(a, b)
 		check(func(i int) *big.Int { return R.Sub(av[i], bv[i]) })
 	case "Mul":
+		if n > 0 && rapid.IntRange(0, 2).Draw(t, "finalsub") == 0 {
+			// a few positions get operand pairs whose unreduced product sits on a borrow boundary of the final
+			// subtraction (every lane of the SIMD blocks must propagate that borrow)
+			for k := rapid.IntRange(1, 4).Draw(t, "fs_n"); k > 0; k-- {
+				i := rapid.IntRange(0, n-1).Draw(t, "fs_pos")
+				xv, yv, mc := spec(f).MontFinalSubPair(t, "fs")
+				av[i], bv[i] = xv, yv
+				a.At(i).SetBig(xv)
+				b.At(i).SetBig(yv)
+				cls = append(cls, mc, fmt.Sprintf("finalsub_lane:%d", i%16))
+			}
+		}
 		res.Mul(a, b)
 		check(func(i int) *big.Int { return R.Mul(av[i], bv[i]) })
 	case "ScalarMul":
 		cv, _ := spec(f).Elem(t, "c")
+		if n > 0 && rapid.IntRange(0, 2).Draw(t, "finalsub") == 0 {
+			// the scalar and one vector entry form a final-subtraction boundary pair
+			i := rapid.IntRange(0, n-1).Draw(t, "fs_pos")
+			xv, yv, mc := spec(f).MontFinalSubPair(t, "fs")
+			av[i], cv = xv, yv
+			a.At(i).SetBig(xv)
+			cls = append(cls, mc, fmt.Sprintf("finalsub_lane:%d", i%16))
+		}
 		c := f.FromBig(cv)
 		res.ScalarMul(a, c)
 		check(func(i int) *big.Int { return R.Mul(av[i], cv) })
